@@ -558,6 +558,7 @@ type Lemma struct {
 	Ensures  []Clause
 	Induct   string // variable for induction, "" none
 	Uses     []Clause
+	Applies  []Clause
 	Floats   string
 	Trusted  bool
 	Triggers []string
@@ -589,7 +590,7 @@ var clauseKW = map[string]bool{
 	"func": true, "ghost": true, "lemma": true, "axiom": true, "requires": true, "ensures": true,
 	"modifies": true, "invariant": true, "decreases": true, "loop": true, "floats": true,
 	"inline": true, "trusted": true, "panics": true, "at": true, "use": true, "obligations": true,
-	"induction": true, "nosafety": true, "withinlen": true, "allocates": true, "trigger": true, "lemmas": true, "unreachable": true, "pure": true, "package": true, "opaque": true, "storelinks": true, "nilrecv": true, "nomerge": true,
+	"induction": true, "nosafety": true, "withinlen": true, "allocates": true, "trigger": true, "lemmas": true, "unreachable": true, "pure": true, "package": true, "opaque": true, "storelinks": true, "nilrecv": true, "nomerge": true, "apply": true,
 }
 
 // ParseSpecText parses contract text (already stripped of //@ prefixes); pkg is the
@@ -944,6 +945,16 @@ func (ss *SpecSet) ParseSpecText(lines []string, wheres []string, pkg string) er
 				return err
 			}
 			curLemma.Uses = append(curLemma.Uses, cl)
+		case "apply":
+			// conditional use of another lemma: its instance requires ==> ensures is assumed
+			if curLemma == nil {
+				return fmt.Errorf("%s: apply outside lemma (use 'at <label>: apply' in functions)", rc.where)
+			}
+			cl, err := mkClause(rc.text, rc.where)
+			if err != nil {
+				return err
+			}
+			curLemma.Applies = append(curLemma.Applies, cl)
 		}
 	}
 	return nil
